@@ -3,7 +3,7 @@
   `check_combinations` of `poly-commit/src/lib.rs` (Hyrax, Ligero, Brakedown).  Model:
   `PCV.Model.TraitDefault`.  Only property theorems live here; lemmas are in PCV/Proofs/TraitDefault*.lean.
 -/
-import PCV.Proofs.TraitDefaultLC
+import PCV.Proofs.TraitDefaultComplete
 import PCV.Proofs.TraitDefaultToy
 set_option linter.unusedSectionVars false
 
@@ -107,6 +107,61 @@ theorem default_lc_changed_coefficient_rejected (ltP : Pt → Pt → Bool) (lblC
   injection h3' with h3'
   rw [hterms, hterms', termsValue_replace _ pre post c c' t] at h3'
   exact hmoves (by linear_combination -h3')
+
+/-- **The honest default combination proof is accepted, the scheme's own pair being complete.**
+Hypotheses: `ltP` is a strict total order; the scheme's `open`/`check` pair is complete on the triples a
+group can consist of (`Good`) and keeps the relation `R` between prover and verifier state (as in
+`C01.default_batch_complete`); no point label is used with two points; every queried equation is
+supplied; the claimed values are the true combination values `Σ coeff·pᵢ(z) + constants`
+(`trueEval`: the polynomial listed last under each label); the three prover lists are aligned so that the
+triple found under a label holds the polynomial found under it (`htrip` — true for lists of equal length
+with distinct labels; with a longer polynomial list `evaluate_query_set` and `batch_open` can read
+different polynomials); the verifier lists the prover's commitments under the same labels.
+Then whatever `open_combinations` returns — equations with zero, negative, repeated coefficients and
+constants, several equations per point, one equation at several points, point labels sharing a point
+value — `check_combinations` accepts, and the final states are related. -/
+theorem default_combinations_complete {LP S σp σv : Type}
+    (ltP : Pt → Pt → Bool) (hlt : QS.StrictTotal ltP) (hirr : ∀ a, ltP a a = false)
+    (lblP : LP → Label) (lblC : C → Label) (evalP : LP → Pt → F)
+    (openF : List ((LP × S) × C) → Pt → σp → Except Err (PF × σp))
+    (checkF : List C → Pt → List F → PF → σv → Except Err (Bool × σv))
+    (R : σp → σv → Prop) (Good : List ((LP × S) × C) → Prop)
+    (hcomplete : ∀ ts z π sp sp' sv, Good ts → R sp sv → openF ts z sp = .ok (π, sp') →
+      ∃ sv', checkF (ts.map (·.2)) z (ts.map fun t => evalP t.1.1 z) π sv = .ok (true, sv') ∧ R sp' sv')
+    (lcs : List (LC.LinComb F)) (polys : List LP) (sts : List S) (comms vcomms : List C)
+    (qs : List (Query Pt)) (ee : List ((Label × Pt) × F))
+    (hpts : ConsistentPoints qs)
+    (hsupplied : ∀ q ∈ qs, (lcGet lcs q.1).isSome = true)
+    (hclaims : ∀ q ∈ qs, ∀ lc, lcGet lcs q.1 = some lc →
+      QS.lastWith (q.1, q.2.2) ee = some (LC.termsValue (trueEval lblP evalP polys q.2.2) lc.terms))
+    (htrip : ∀ l t, Marlin.lookupLast (fun (t : (LP × S) × C) => lblP t.1.1) l
+        (polyStComm polys sts comms) = some t → Marlin.lookupLast lblP l polys = some t.1.1)
+    (hgood : ∀ ls ts, gatherOpen lblP (polyStComm polys sts comms) ls = .ok ts → Good ts)
+    (hcm : ∀ l t, Marlin.lookupLast (fun (t : (LP × S) × C) => lblP t.1.1) l
+        (polyStComm polys sts comms) = some t → Marlin.lookupLast lblC l vcomms = some t.2)
+    (sp : σp) (sv : σv) (πs : List PF) (evals : Option (List F)) (sp' : σp) (h0 : R sp sv)
+    (ho : openCombinations ltP lblP evalP openF lcs polys sts comms qs sp = .ok ((πs, evals), sp')) :
+    ∃ sv', checkCombinations ltP lblC checkF lcs vcomms qs ee πs evals sv = .ok (true, sv') ∧
+      R sp' sv' :=
+  combinations_complete ltP hlt hirr lblP lblC evalP openF checkF R Good hcomplete lcs polys sts comms
+    vcomms qs ee hpts hsupplied hclaims htrip hgood hcm sp sv πs evals sp' h0 ho
+
+/-- the toy scheme of the examples satisfies the completeness hypothesis (with `R` = equal counters,
+`Good` = every commitment is the commitment of its polynomial) -/
+example : ∀ (ts : List ((Toy.TC × Unit) × Toy.TC)) z π sp sp' sv, (∀ t ∈ ts, t.2 = t.1.1) → sp = sv →
+    Toy.openF ts z sp = .ok (π, sp') →
+    ∃ sv', Toy.checkF (ts.map (·.2)) z (ts.map fun t => Toy.evalP t.1.1 z) π sv = .ok (true, sv') ∧
+      sp' = sv' := by
+  intro ts z π sp sp' sv hg hs ho
+  simp only [Toy.openF, Except.ok.injEq, Prod.mk.injEq] at ho
+  obtain ⟨rfl, rfl⟩ := ho
+  subst hs
+  refine ⟨sp + 1, ?_, rfl⟩
+  have : (ts.map fun t => Toy.evalP t.1.1 z) = (ts.map (·.2)).map fun c => Toy.evalP c z := by
+    rw [List.map_map]
+    exact List.map_congr_left fun t ht => by simp [hg t ht]
+  simp [Toy.checkF, this]
+example : ConsistentPoints Toy.eqs := by unfold ConsistentPoints; decide
 
 /-! non-vacuity over `ZMod 101` (`PCV.TraitDefault.Toy`): `e = 2a − b + 5` (negative coefficient,
 constant) at two points, `f = 0·c + a` (zero coefficient: `c` is still opened); the honest proof is
